@@ -636,7 +636,7 @@ func (ex *Exec) specCall(call *ast.CallExpr, info *types.Info, env *SpecEnv, pc 
 			k = "recv"
 		}
 		ch := arg(0).(ChanV)
-		return IntV{Select(env.st.get("ghost|"+k+".cnt", SArr(SRef, SBV(64))), ch.Ref)}
+		return IntV{Select(env.st.get("ghost|"+k+".cnt|"+typeKey(chanElem(info.Types[call.Args[0]].Type)), SArr(SRef, SBV(64))), ch.Ref)}
 	case "within":
 		// within(sub, whole): sub is a window of whole's backing array inside whole
 		a, b := arg(0).(SliceV), arg(1).(SliceV)
@@ -911,6 +911,8 @@ func (fr *Frame) contractCall(ct *Contract, fn *ssa.Function, args []Value, pc *
 		ex.oblige("call-requires", fmt.Sprintf("%s.%d", contractName(ct), cl.Index), pos, pc, g, "requires "+cl.Text)
 	}
 	pre := st.clone()
+	savedPending := ex.pendingPtrs
+	ex.pendingPtrs = nil
 	// the callee may read the clock: time moves on
 	{
 		oldc := st.get("ghost|clock", SBV(64))
@@ -951,6 +953,8 @@ func (fr *Frame) contractCall(ct *Contract, fn *ssa.Function, args []Value, pc *
 	env.st = st
 	env.old = pre
 	env.callSite = true
+	// values read from the post-state may be objects the callee allocated
+	ex.noAlloc++
 	for _, cl := range ct.Clauses {
 		if cl.Kind != "ensures" {
 			continue
@@ -958,27 +962,34 @@ func (fr *Frame) contractCall(ct *Contract, fn *ssa.Function, args []Value, pc *
 		g := ex.assumeSpec(cl.Exprs[0], info, env, pc)
 		ex.assume(pc, g)
 	}
+	ex.noAlloc--
 	// pointer results are either declared fresh (then they join the allocated
 	// set now) or point to something that was already allocated
 	al := st.get("alloc", SArr(SRef, SBool))
+	var refs []*Term
 	for _, v := range resVals {
-		p, ok := v.(PtrV)
-		if !ok || p.Kind != PHeap {
-			continue
+		if p, ok := v.(PtrV); ok && p.Kind == PHeap {
+			refs = append(refs, p.Ref)
 		}
+	}
+	refs = append(refs, ex.pendingPtrs...)
+	ex.pendingPtrs = savedPending
+	al0 := al
+	for _, r := range refs {
 		isFresh := false
 		for _, f := range env.freshRefs {
-			if f == p.Ref {
+			if f == r {
 				isFresh = true
 			}
 		}
 		if isFresh {
-			al = Store(al, p.Ref, True)
+			al = Store(al, r, True)
 		} else {
-			ex.assume(pc, Or(Eq(p.Ref, RefNil()), Select(al, p.Ref)))
+			ex.assume(pc, Or(Eq(r, RefNil()), Select(al0, r)))
 		}
 	}
 	st.set("alloc", al)
+	ex.cover("after call "+contractName(ct), pos, pc)
 	// lock state is restored by every function unless the contract says otherwise
 	return callResult{val: res, st: st}
 }
@@ -1035,7 +1046,12 @@ func (ex *Exec) havocLocation(e ast.Expr, info *types.Info, pre *SpecEnv, st *St
 			cur := st.heapLoad(p.Root, p.Path, p.Ref)
 			st.heapStore(p.Root, p.Path, p.Ref, havocKeepShape(cur, "mod."+x.Sel.Name))
 			nv := st.heapLoad(p.Root, p.Path, p.Ref)
-			ex.wellFormed(st, nv, pc)
+			if np, ok := nv.(PtrV); ok && np.Kind == PHeap {
+				// allocated-or-fresh is decided after the ensures clauses
+				ex.pendingPtrs = append(ex.pendingPtrs, np.Ref)
+			} else {
+				ex.wellFormed(st, nv, pc)
+			}
 		default:
 			cur, ok := st.cells[p.Cell.id]
 			if !ok {
